@@ -180,8 +180,9 @@ def diff(ctx, f, x, n=1, **options):
         x = [ctx.convert(_) for _ in x]
         return _partial_diff(ctx, f, x, orders, options)
     method = options.get('method', 'step')
+    x = ctx.convert(x)
     if n == 0 and method != 'quad' and not options.get('singular'):
-        return f(ctx.convert(x))
+        return f(x)
     prec = ctx.prec
     try:
         if method == 'step':
@@ -262,6 +263,7 @@ def diffs(ctx, f, x, n=None, **options):
         n = ctx.inf
     else:
         n = int(n)
+    x = ctx.convert(x)
     if options.get('method', 'step') != 'step':
         k = 0
         while k < n + 1:
